@@ -193,8 +193,8 @@ class Vec(np.ndarray):
             Vec: the normalized vector
         """
         nrm = Vec.norm(vec, which)
-        np.seterr(all='raise')
         # we want the following to fail when a division by zero is encountered
-        out = Vec(vec/nrm)
-        np.seterr(all='warn')
+        # (the caller's floating point error configuration is restored afterwards, also when the division fails)
+        with np.errstate(all='raise'):
+            out = Vec(vec/nrm)
         return out
